@@ -30,6 +30,11 @@ def printJavaCpu (d : JavaCpuDoc) : Str :=
   words d.big d.w64 ([0, 3, 1, d.period, 0] ++ d.recs.flatMap CpuRec.words ++ (if d.eod then [0, 1, 0] else [])) ++
     (if d.eod then unlines d.trailerLines else [])
 
+/-- the same document with freely chosen line terminators in the trailer (`renderLines`) -/
+def printJavaCpuWith (cs : List Bool) (noFinal : Bool) (d : JavaCpuDoc) : Str :=
+  words d.big d.w64 ([0, 3, 1, d.period, 0] ++ d.recs.flatMap CpuRec.words ++ (if d.eod then [0, 1, 0] else [])) ++
+    (if d.eod then renderLines cs noFinal d.trailerLines else [])
+
 def JavaCpuDoc.wordBound (d : JavaCpuDoc) : Nat := if d.w64 then two64 else two32
 
 def JavaCpuDoc.wf (d : JavaCpuDoc) : Bool :=
@@ -63,8 +68,7 @@ def javaCpuProfile (big w64 : Bool) (period : Nat) (b : Str) : Outcome Profile :
   | .err e => .err e
   | .panic e => .panic e
   | .ok (ss, rest) =>
-    let (ls, rem) := splitNL rest
-    match javaLocLoop (ls ++ (if rem.isEmpty then [] else [rem])) with
+    match javaLocLoop (javaLocLines rest) with
     | .err e => .err e
     | .panic e => .panic e
     | .ok infos => .ok (javaCpuAssemble period ss infos)
